@@ -250,6 +250,8 @@ impl SymTable {
             VariableName::Proper(name) => self.proper.emplace(name, val),
         }?
         .as_var_mut();
+        #[cfg(feature = "verif")]
+        crate::verif::pre("sym_table.emplace_var_impl", entry.is_some());
         Ok(unsafe { entry.unchecked_unwrap() })
     }
     pub fn emplace_var(&mut self, name: &VariableName) -> Result<&mut Val, SymTableError> {
